@@ -311,6 +311,10 @@ def match_known(pid, fail, known):
     return None
 
 
+def ok_build(broken):
+    return not any(b.get("stage") in ("proof-build", "proof", "hygiene") for b in broken)
+
+
 def run_property(pid, tier, seed):
     mod = importlib.import_module("props." + pid.lower())
     ctx = Ctx(pid, tier, seed)
@@ -344,6 +348,15 @@ def run_property(pid, tier, seed):
                     discharged += len(ths)
                 for p in probs:
                     broken.append({"stage": "proof", "theorem_file": pf, "what": p})
+        if ctx.thorough and ok_build(broken) and getattr(mod, "PROP_FILES", []):
+            # independent re-check of the compiled property files and everything they depend on
+            rc, out = sh(["timeout", "3000", "coqchk", "-silent", "-o", "-Q", THEORIES, "Hermes"] +
+                         ["Hermes." + pf for pf in mod.PROP_FILES], cwd=COQ)
+            summ = out[out.find("CONTEXT SUMMARY"):] if "CONTEXT SUMMARY" in out else out[-1500:]
+            ctx.extra["coqchk"] = {"exit": rc, "summary": " ".join(summ.split())[:3000]}
+            if rc != 0:
+                broken.append({"stage": "coqchk", "what": out[-2000:]})
+            ctx.log("coqchk: exit %d" % rc)
         if hasattr(mod, "gen_proofs"):
             g_obl, g_dis, g_broken, g_ths = mod.gen_proofs(ctx)
             obligations += g_obl; discharged += g_dis; theorems += g_ths
